@@ -362,6 +362,16 @@ func (vt *Model) resize(w int, h int) {
 		vt.primaryScreen[i] = make([]cell, w)
 	}
 	last := vt.cursor.row
+	// The scroll region and the saved cursors must fit the new size
+	vt.margin.top = 0
+	for _, st := range []*cursorState{&vt.primaryState, &vt.altState} {
+		if st.cursor.row > row(h)-1 {
+			st.cursor.row = row(h) - 1
+		}
+		if st.cursor.col > column(w)-1 {
+			st.cursor.col = column(w) - 1
+		}
+	}
 	vt.margin.bottom = row(h) - 1
 	vt.margin.right = column(w) - 1
 	vt.cursor.row = 0
